@@ -8,8 +8,13 @@
 // completions and pre-existing blobs: a nil error implies a complete, readable file.
 // Part 2 (trees.go): seeded well-formed file/bytes part trees written as raw JSON;
 // FileReader.ReadAt / Seek+Read / ReadAll compared with the interpreter.
-// Part 3 (dirs.go): static-set splitting with a lowered threshold; DirReader.StaticSet
-// must list exactly the members.
+// Part 2b (huge.go): sparse trees with holes, offsets and sizes beyond 2^31 / 2^32, read
+// around their late part boundaries against a lazy interpreter of the stored JSON.
+// Part 3 (dirs.go): static-set splitting with a lowered threshold and, for a few large
+// directories, with perkeep's own threshold (real sha224 / sha256 / sha1 refs): every
+// static-set blob the writer produces is a schema blob within the size limit,
+// DirReader.StaticSet lists exactly the members, and DirReader.Readdir lists exactly the
+// stored entries when the members are file / directory / symlink schema blobs.
 package main
 
 import (
@@ -40,7 +45,7 @@ const (
 
 func main() {
 	ev.Main("C15", "exploration",
-		"files: lengths {0,1,64Ki+-1,256Ki+-1,288Ki+-1,320Ki+-1,1Mi+-1,1.25Mi+-1,2-5Mi} x content {zeros,random,engineered rollsum windows / periodic} x source reader shape {whole,onebyte,half,short,dataeof,zeroreads}, written with schema.WriteFileFromReader and read back; faulted writes: (one transient failure of the k-th chunk / bytes-schema / file-schema ReceiveBlob or k-th StatBlobs, before or after effect) x (learned at once / while the source still delivers / only after source EOF) x store prestate {empty, same file, same content other name, random subset, prefix chunks} x entry point {WriteFileFromReader, WriteFileMap, WriteFileChunks+upload}, nil error => every referenced blob stored and exact read-back, error => retry into the same store must succeed; trees: seeded well-formed file/bytes part trees (depth<=3; blobRef/bytesRef/hole parts, offsets, parts ending before their referent) as raw JSON, every part boundary +-1 and mid-part ReadAt, Seek+Read, full reads against the harness's own bytes.md interpreter; directories: static-set splitting with threshold m in {3,4,7}, member counts around m, m^2, m^3. distinct = per (length,content,reader,replica) file / per tree root ref / per (m,count,variant) directory; non-trivial = file length>0, tree with >=2 parts or a nested/offset part, directory that was split",
+		"files: lengths {0,1,64Ki+-1,256Ki+-1,288Ki+-1,320Ki+-1,1Mi+-1,1.25Mi+-1,2-5Mi} x content {zeros,random,engineered rollsum windows / periodic} x source reader shape {whole,onebyte,half,short,dataeof,zeroreads}, written with schema.WriteFileFromReader and read back; faulted writes: (one transient failure of the k-th chunk / bytes-schema / file-schema ReceiveBlob or k-th StatBlobs, before or after effect) x (learned at once / while the source still delivers / only after source EOF) x store prestate {empty, same file, same content other name, random subset, prefix chunks} x entry point {WriteFileFromReader, WriteFileMap, WriteFileChunks+upload}, nil error => every referenced blob stored and exact read-back, error => retry into the same store must succeed; trees: seeded well-formed file/bytes part trees (depth<=3; blobRef/bytesRef/hole parts, offsets, parts ending before their referent) as raw JSON, every part boundary +-1 and mid-part ReadAt, Seek+Read, full reads against the harness's own bytes.md interpreter, ForeachChunk (schemaPath and never-a-bytesRef always; chunk content when no bytesRef part is sub-ranged); sparse trees (depth<=3) with 2-8 GiB holes around 2^31/2^32/5 GiB, blobs behind them and sub-ranged bytesRef parts whose offset lies inside such a hole: ReadAt at every leaf boundary +-1, at 2^31/2^32 marks inside the holes and beyond EOF, Seek (all whences) + Read, against a lazy range interpreter of the stored JSON; directories: static-set splitting with threshold m in {3,4,7}, member counts around m, m^2, m^3, members {distinct, drawn from a small pool, all the same, stored file/directory/symlink entries listed through Readdir(-1), Readdir(0), first Readdir(n)}; and with the PRODUCTION threshold untouched: directories of 9 999 / 10 000 / 10 001 / 15 000 / 20 000+-1 / 30 000 / ~35 000 members with sha224, sha256, sha1 and mixed refs (quick: ~35 000 sha256, 15 000 sha224, 10 001 stored entries), every static-set blob written must be a valid schema blob of at most schema.MaxSchemaBlobSize bytes, building must not panic, the listing must be exact (recursive splitting at the production threshold would need 10^8 members and is only exercised at lowered thresholds). distinct = per (length,content,reader,replica) file / per tree root ref / per (m,count,variant) directory; non-trivial = file length>0, tree with >=2 parts or a nested/offset part, directory that was split",
 		run)
 }
 
@@ -66,6 +71,7 @@ func run(r *ev.Run) {
 	var jobs []job
 	jobs = append(jobs, writerJobs(r)...)
 	jobs = append(jobs, treeJobs(r)...)
+	jobs = append(jobs, hugeJobs(r)...)
 	jobs = append(jobs, faultJobs(r)...)
 
 	// heavy jobs first
@@ -103,7 +109,7 @@ func run(r *ev.Run) {
 	close(ch)
 	wg.Wait()
 
-	r.Extra("tier_sizes", map[string]int{"file_cases": countPrefix(jobs, "w"), "tree_cases": countPrefix(jobs, "t"), "faulted_write_cases": countPrefix(jobs, "f")})
+	r.Extra("tier_sizes", map[string]int{"file_cases": countPrefix(jobs, "w"), "tree_cases": countPrefix(jobs, "t"), "sparse_tree_cases": countPrefix(jobs, "h"), "faulted_write_cases": countPrefix(jobs, "f")})
 	if os.Getenv("VERIF_ONLY") == "" {
 		requireAll(r)
 	}
@@ -167,11 +173,22 @@ func requireAll(r *ev.Run) {
 		"bytes-full", "bytes-offset", "bytes-short", "bytes-offset+short",
 		"same-blob-twice", "same-blob-adjacent", "shared-bytes-node", "single-part", "hole-only", "empty-root", "known-witness")
 	r.Require("read_kinds", "readat", "readat-beyond-eof", "readat-short-at-eof", "seek+read", "sequential-read", "readall",
-		"readat-mid-part-crossing-short-part")
+		"readat-mid-part-crossing-short-part", "foreachchunk-tree", "foreachchunk-nested-tree")
+	// part 2b
+	r.Require("sparse_tree_shape", "huge-hole", "root=file", "root=bytes", "depth=1", "depth=2", "depth=3", "size>=2^32",
+		"blob-offset", "blob-short", "bytes-full", "bytes-short", "bytes-offset", "bytes-offset>=2^31", "bytes-offset>=2^32")
+	r.Require("sparse_read", "readat-blob-partstart@>=2^32", "readat-blob-midpart-crossing@>=2^32", "readat-hole-midpart-crossing@>=2^32",
+		"readat-hole-midpart@>=2^31", "readat-blob-partstart-crossing@>=2^31", "seek+read@>=2^32", "seek+read@>=2^31")
 	// part 3
 	r.Require("dir_branch", "single", "split-flat/exact", "split-flat/rest", "split-recursive/exact", "split-recursive/rest")
-	r.Require("dir_threshold", "m=3", "m=4", "m=7")
-	r.Require("dir_variant", "distinct", "dupes", "all-same")
+	r.Require("dir_threshold", "m=3", "m=4", "m=7", "production")
+	r.Require("dir_variant", "distinct", "dupes", "all-same", "entries")
+	r.Require("dir_readdir", "all@lowered-threshold", "first-page@lowered-threshold")
+	r.Require("dir_production", "split", "split-flat/rest", "sha256-refs", "sha224-refs", "distinct", "entries", "readdir")
+	r.Require("dir_readdir", "all@production-threshold", "first-page@production-threshold")
+	if r.Thorough() {
+		r.Require("dir_production", "single", "split-flat/exact", "sha1-refs", "mixed-refs", "dupes", "all-same")
+	}
 }
 
 func hexs(b []byte) string {
